@@ -348,6 +348,12 @@ def call_model(param_items, ret_item=None, args=None):
 LEAF = "*"
 
 
+def unshare(v):
+    while v["t"] == "shared":
+        v = v["v"]
+    return v
+
+
 def _children(v):
     """Children of a container VALUE SPEC, or None if the value is not a container."""
     t = v["t"]
@@ -374,6 +380,7 @@ def _node_tag(v):
 def flatten(v, is_leaf):
     """-> (struct, leaves): top-down; a subtree for which is_leaf(v) holds is a leaf; None and empty
     containers contribute no leaves.  struct: LEAF | (tag, [child structs])"""
+    v = unshare(v)
     if is_leaf(v):
         return LEAF, [v]
     ch = _children(v)
@@ -426,6 +433,7 @@ class TreeModel:
     # -- leaf types ---------------------------------------------------------------------------
     def leaf_match(self, L, v, ctx, label, flat):
         """-> (outs, post).  flat=True: flatten mode (array annotations only test the array type, no binding)."""
+        v = unshare(v)
         if L == "any":
             return {ACCEPT}, ctx
         if L == "int":
@@ -471,6 +479,7 @@ class TreeModel:
 
     # -- PyTree[L] / PyTree[L, struct] ----------------------------------------------------------
     def match_tree(self, spec, v, ctx, outer_label=None, flat=False, top=True):
+        v = unshare(v)
         if v["t"] == "none":
             return {ACCEPT}, ctx  # a top-level None is always accepted (and binds nothing)
         L = spec["leaf"]
